@@ -3,7 +3,9 @@
 (* of a real DynamicHostResolver wired by the real CreateRoundRobinBackend   *)
 (* callback to a real RoundRobinBackend and, through the backend-change      *)
 (* events, to a real Proxy loop; after quiescence the driver reports the     *)
-(* rotation (GetAllBackend), the addresses the proxy recognises as backends, *)
+(* rotation (GetAllBackend), the addresses the proxy recognises as backends  *)
+(* (its table, and behaviourally: which of the addresses the rotation ever   *)
+(* held get a dialog-establishing response attributed, and to which object), *)
 (* and whether vanished backends are closed and present ones usable.         *)
 EXTENDS ResolverOps, TLC, Json, IOUtils
 Trace == ndJsonDeserialize(IOEnv.TRACE_FILE)
@@ -17,6 +19,8 @@ Verdict(e, h2) ==
     ELSE IF Range(e.member) # exp THEN
          (IF ~(exp \subseteq Range(e.member)) THEN "P:C19:resolved-address-missing-from-the-rotation" ELSE "P:C19:vanished-address-still-in-the-rotation")
     ELSE IF Range(e.known) # exp THEN "P:C19:proxy-does-not-recognise-exactly-the-rotation-as-its-backends"
+    ELSE IF e.attributed_stale # <<>> THEN "P:C19:response-attributed-to-a-backend-that-has-left-the-rotation"
+    ELSE IF Range(e.attributed) # exp THEN "P:C19:responses-not-attributed-to-exactly-the-backends-in-rotation"
     ELSE IF ~e.closed_ok THEN "P:C19:vanished-backend-not-closed"
     ELSE IF ~e.open_ok THEN "P:C19:backend-in-rotation-is-not-usable"
     ELSE ""
